@@ -9,6 +9,7 @@ CONSTANTS
   RDelims <- MCRDelims
   MaxParts = 3
   MaxOps = 2
+  MaxRetry = 1
   ContentSel = {1, 2, 3, 4, 5, 6, 7, 8, 9, 10, 11, 12}
   ProfileSel = {1, 2, 3, 4}
   UseJson = TRUE
